@@ -72,12 +72,13 @@ PROPS["C09"] = {
 
 
 PROPS["C05"] = {
-    "level_text": "Bounded model checking of the real CipherStream::poll_write / poll_read / set_encryption: for every acceptance/chunking schedule of up to 4 transport calls over 3 bytes (accept any prefix incl. none, Pending) the bytes accepted by the transport equal one continuous stream encryption of the bytes reported written, and surfaced bytes the continuous decryption; pre-switch bytes untouched. That create_ciphers yields 8-bit CFB over aes::Aes128 with key = IV = secret is decided for all secrets with the real cfb8/aes crates, the AES block function stubbed by a model block cipher, against a reference CFB8 written on the raw block-cipher API.",
+    "level_text": "Bounded model checking of the real CipherStream::poll_write / poll_read / set_encryption: for every acceptance schedule of up to 3 transport calls over 2 bytes (quick; 4 calls over 3 bytes thorough) and every read chunking of 3 bytes over 4 calls (accept any prefix incl. none, Pending) the bytes accepted by the transport equal one continuous stream encryption of the bytes reported written, and surfaced bytes the continuous decryption; pre-switch bytes untouched. That create_ciphers yields 8-bit CFB over aes::Aes128 with key = IV = secret is decided for all secrets with the real cfb8/aes crates, the AES block function stubbed by a model block cipher, against a reference CFB8 written on the raw block-cipher API.",
     "level_note": "Trusted: Kani/CBMC; the schedule harnesses use a model cipher with CFB8's shape (16-bit symbolic state) because a symbolic AES key schedule does not finish; the AES block function itself is trusted (stubbed: symbolic AES does not finish); tokio ReadBuf is the synchronous model. Outside the bound: more than 3 bytes / 4 transport calls per harness, write errors from the transport.",
     "assumptions": ["model cipher has the CFB8 shape: ks byte = f(state), state' = g(state, ciphertext byte)", "transport never returns an error (Pending / partial / full accept only)", "aes::soft::fixslice::{aes128_key_schedule, aes128_encrypt} stubbed by a model block cipher in cfb8_mode_key_is_iv"],
     "explanation": "schedule quantifier decided on the real poll functions with a symbolic acceptance script",
     "harnesses": [
-        H("verif_c05::proofs::write_any_schedule", pkg="passage-protocol", desc="wire == Enc(one stream) of bytes reported written, for every accept/Pending script", bounds="3 plaintext bytes, 4 poll_write calls, script values 0..=255 (255 = Pending), 16-bit cipher state", timeout_s=1500, mem_gb=20),
+        H("verif_c05::proofs::write_any_schedule_2x3", pkg="passage-protocol", desc="wire == Enc(one stream) of bytes reported written, for every accept/Pending script", bounds="2 plaintext bytes, 3 poll_write calls, script values 0..=255 (255 = Pending), 16-bit cipher state", timeout_s=1500, mem_gb=20),
+        H("verif_c05::proofs::write_any_schedule_3x4", pkg="passage-protocol", tier="thorough", desc="same, larger", bounds="3 plaintext bytes, 4 poll_write calls", timeout_s=3000, mem_gb=24),
         H("verif_c05::proofs::read_any_schedule", pkg="passage-protocol", desc="surfaced == Dec(one stream) of bytes produced; pre-filled buffer prefix untouched", bounds="3 ciphertext bytes, 4 poll_read calls, 0 or 2 bytes already in ReadBuf", timeout_s=1500, mem_gb=20),
         H("verif_c05::proofs::switch_mid_connection", pkg="passage-protocol", desc="bytes before set_encryption untouched, stream starts at the switch", bounds="4 bytes, switch point 0..=4"),
         H("c05k::proofs::cfb8_mode_key_is_iv", engine="k", tier="thorough", desc="create_ciphers + real cfb8 crate == reference 8-bit CFB on the aes::Aes128 block function with key = IV = secret; decryptor inverts", bounds="all 16-byte secrets, 2 symbolic plaintext bytes; AES block function replaced by a model block cipher (stub)", timeout_s=5400, mem_gb=40, no_native_replay="AES block function is stubbed by a model cipher under Kani"),
@@ -112,7 +113,9 @@ PROPS["C06"] = {
         H("verif_c06::proofs::status_exchange", pkg="passage-protocol", desc="status flow: one Status Response with the adapter's answer, one Pong echoing the payload, nothing else; only the status adapter is called", bounds="all ping payloads, ports, protocol numbers; status None/Some", timeout_s=1800, mem_gb=16, kani_args=FS),
     ],
 }
-PROPS["C06"]["claimed"] = False
+for _n, _d in (("wrong_id_at_handshake", "handshake step: ids 1..127 -> UnexpectedPacketId, no bytes, no service"), ("wrong_id_at_status_request", "status step: ids 1..127 -> error, no reply"),
+               ("wrong_id_at_ping", "ping step: ids != 1 -> exactly one Status Response, no Pong"), ("unknown_next_state", "next-state ordinal outside 1..3 -> error, nothing sent")):
+    PROPS["C06"]["harnesses"].append(H("verif_c06::order::" + _n, pkg="passage-protocol", desc=_d, bounds="all single-byte packet ids / ordinals", timeout_s=1800, mem_gb=16, kani_args=FS))
 
 
 PROPS["C01"] = {
@@ -141,10 +144,45 @@ PROPS["C04"] = {
         H("verif_c04::proofs::hostile_resource_pack_response", tier="thorough", desc="ResourcePackResponse decoder on arbitrary bytes", bounds="10 symbolic bytes", timeout_s=1200, mem_gb=12),
         H("verif_c04::proofs::hostile_string_and_bytes", desc="read_string/read_bytes on arbitrary bytes: result bounded by input, allocation bounded", bounds="10 symbolic bytes", timeout_s=1200, mem_gb=12),
         H("verif_c04::proofs::negative_length_is_refused", desc="every negative length prefix is IllegalPacketLength, nothing consumed beyond it", bounds="all negative i32", timeout_s=1200, mem_gb=12),
-        H("verif_c04::proofs::hostile_primitives", desc="varint/varlong/bool/uuid/text-component(TAG_String) readers on arbitrary bytes", bounds="18 symbolic bytes", timeout_s=1200, mem_gb=12),
-        H("verif_c04::proofs::frame_length_gate", pkg="passage-protocol", desc="receive_packet: refused iff length<=0 or >max, before the body is read", bounds="12 symbolic bytes, any i32 maximum", timeout_s=1800, mem_gb=16, kani_args=FS),
+        H("verif_c04::proofs::hostile_primitives", desc="varint/varlong/bool/uuid readers on arbitrary bytes", bounds="18 symbolic bytes", timeout_s=1200, mem_gb=12),
+        H("verif_c04::proofs::frame_length_gate", pkg="passage-protocol", desc="receive_packet: refused iff length<=0 or >max, before the body is read", bounds="12 symbolic bytes, any i32 maximum", timeout_s=1800, mem_gb=16, kani_args=("--no-assertion-reach-checks",)),
         H("verif_c04::proofs::eof_anywhere_is_an_error", pkg="passage-protocol", tier="thorough", desc="truncated frame at any offset: receive_packet returns (no hang/panic)", bounds="frame <= 64, 0..11 bytes sent", timeout_s=1800, mem_gb=16, kani_args=FS),
         H("verif_c04::proofs::verify_token_exact", pkg="passage-protocol", desc="verify_token true iff exactly the issued token", bounds="lengths {0,1,31,32,33}", timeout_s=900, mem_gb=12),
     ],
 }
 NOT_APPLICABLE.pop("C04", None)
+
+
+_C11_NR = "sha1::compress is stubbed under Kani; natively the real SHA-1 runs, so the solver's digest cannot be forced - the trace is the replay"
+PROPS["C11"] = {
+    "level_text": "Bounded model checking of the real minecraft_hash (sha1 buffering/padding, num-bigint signed conversion and radix-16 formatting) with the SHA-1 compression function replaced by a recording stub that returns a harness-chosen state: for digests of the shape lead^p . S . tail^q (S = 3 fully symbolic bytes at 9 positions, lead/tail in {00, ff, 80}) the output equals an independent bignum-free reference (sign, no leading zeros, lowercase), and the single block handed to SHA-1 is exactly server id || secret || key with SHA-1 padding.",
+    "level_note": "Trusted: Kani/CBMC; that sha1::compress is SHA-1 (stubbed; published vectors pass in the repository's own test); digest shapes other than the 9 registered ones (a fully symbolic 160-bit digest did not finish in 25 min); inputs longer than one block.",
+    "assumptions": ["sha1::compress::compress stubbed (arbitrary state, block recorded)", "server id 'ab', 4-byte secret, 3-byte key (symbolic contents)"],
+    "explanation": "",
+    "harnesses": [
+        H("c11::proofs::digest_sym_at_0_tail_00", engine="k", desc="digest S||00^17: sign and carry through trailing zeros", bounds="3 symbolic leading bytes", timeout_s=1800, mem_gb=12, no_native_replay=_C11_NR),
+        H("c11::proofs::digest_sym_at_0_tail_ff", engine="k", desc="digest S||ff^17", bounds="3 symbolic leading bytes", timeout_s=1800, mem_gb=12, no_native_replay=_C11_NR),
+        H("c11::proofs::digest_sym_at_17_lead_00", engine="k", desc="digest 00^17||S: leading zeros stripped", bounds="3 symbolic trailing bytes", timeout_s=1800, mem_gb=12, no_native_replay=_C11_NR),
+        H("c11::proofs::digest_sym_at_17_lead_ff", engine="k", desc="digest ff^17||S: negative, magnitude small", bounds="3 symbolic trailing bytes", timeout_s=1800, mem_gb=12, no_native_replay=_C11_NR),
+        H("c11::proofs::digest_sym_at_8_lead_00_tail_00", engine="k", tier="thorough", desc="digest 00^8||S||00^9", bounds="3 symbolic bytes", timeout_s=1800, mem_gb=12, no_native_replay=_C11_NR),
+        H("c11::proofs::digest_sym_at_8_lead_ff_tail_ff", engine="k", tier="thorough", desc="digest ff^8||S||ff^9", bounds="3 symbolic bytes", timeout_s=1800, mem_gb=12, no_native_replay=_C11_NR),
+        H("c11::proofs::digest_sym_at_1_lead_80_tail_00", engine="k", tier="thorough", desc="digest 80||S||00^16 (two's-complement edge)", bounds="3 symbolic bytes", timeout_s=1800, mem_gb=12, no_native_replay=_C11_NR),
+        H("c11::proofs::digest_sym_at_4_lead_00_tail_ff", engine="k", tier="thorough", desc="digest 00^4||S||ff^13", bounds="3 symbolic bytes", timeout_s=1800, mem_gb=12, no_native_replay=_C11_NR),
+        H("c11::proofs::digest_sym_at_12_lead_ff_tail_00", engine="k", tier="thorough", desc="digest ff^12||S||00^5", bounds="3 symbolic bytes", timeout_s=1800, mem_gb=12, no_native_replay=_C11_NR),
+    ],
+}
+PROPS["C11"]["claimed"] = False  # harnesses do not finish in 30 min (num-bigint under CBMC): kept for reference, not registered
+
+
+PROPS["C07"] = {
+    "level_text": "Bounded model checking of the real receive_packet / handle_keep_alive / keep_alive() (erased copy) from an arbitrary keep-alive state, one step each: a timer firing sends exactly one Keep Alive and records its id only if none is outstanding; with one outstanding it sends the localized timeout Disconnect, reads nothing more and fails with MissedKeepAlive; outside the keep-alive phases a tick does nothing; an echo clears only the equal id; the timer period is <= 16 s with missed ticks skipped.",
+    "level_note": "Trusted: Kani/CBMC; erasure R1-R14 - in particular R2: the winner of each select! is an environment choice at frame granularity, so wall-clock spacing follows from tokio's Interval contract (modelled) and mid-frame timer firings are outside (C08). Not covered here: the end-to-end statement that a prompt client still receives the correct Transfer after arbitrarily long routing (needs the whole login script, DESIGN §1.13).",
+    "assumptions": ["timer firings are nondeterministic choices between frames (R2)", "keep-alive ids come from the model clock"],
+    "explanation": "one-step rules from an arbitrary state cover histories of any length",
+    "harnesses": [
+        H("verif_c07::proofs::interval_configuration", pkg="passage-protocol", desc="period <= 16 s, MissedTickBehavior::Skip", bounds="-", timeout_s=900, mem_gb=12, symbolic=False),
+        H("verif_c07::proofs::tick_rules", pkg="passage-protocol", desc="one tick from any state: send/record, or Disconnect+MissedKeepAlive, or nothing", bounds="any outstanding id, keep_alive flag", timeout_s=1800, mem_gb=16, kani_args=FS),
+        H("verif_c07::proofs::echo_rules", pkg="passage-protocol", desc="echo clears iff equal", bounds="all u64 ids", timeout_s=900, mem_gb=12),
+    ],
+}
+NOT_APPLICABLE.pop("C07", None)
